@@ -2175,6 +2175,17 @@ class Interp:
             # a.argmin() is np.argmin(a)
             return self.do_call(tm.glob("numpy." + fn.args[1]), [fn.args[0]],
                                 [], node, frame, live)
+        if fn.op == "attr" and fn.args[1] in ("values", "keys", "items") \
+                and not args and not kwargs and \
+                self.unname(fn.args[0]).op == "dict":
+            d_ = self.unname(fn.args[0])
+            if d_.args and all(isinstance(kv, tuple) and
+                               kv[0].op != "star" for kv in d_.args):
+                # views of a dict literal: its keys / values / pairs
+                return T("tuple", *[
+                    kv[0] if fn.args[1] == "keys" else kv[1]
+                    if fn.args[1] == "values" else T("tuple", kv[0], kv[1])
+                    for kv in d_.args])
         if fn.op == "attr" and fn.args[1] == "__getitem__" and \
                 len(args) == 1 and not kwargs and args[0].op != "star":
             return tm.sub(fn.args[0], args[0])
@@ -2369,6 +2380,27 @@ class Interp:
             val = self.do_call(fu if fu.op in ("closure", "func") else
                                args[0], [el], [], node, frame, live)
             return T("comp", "gen", val, ((args[1], lid),), ())
+        if name == "builtins.bool" and len(args) == 1 and not kwargs and \
+                tm.is_const(self.unname(args[0])) and isinstance(
+                    tm.const_val(self.unname(args[0])),
+                    (bool, int, float, str, type(None))):
+            return const(bool(tm.const_val(self.unname(args[0]))))
+        if name == "builtins.slice" and 1 <= len(args) <= 3 and not kwargs \
+                and not any(a.op == "star" for a in args):
+            # slice(a, b, c) is the subscript a:b:c
+            if len(args) == 1:
+                return T("slice", NONE, args[0], NONE)
+            return T("slice", args[0], args[1],
+                     args[2] if len(args) == 3 else NONE)
+        if name in ("builtins.any", "builtins.all") and len(args) == 1 and \
+                not kwargs:
+            # any / all of a completely known short sequence: the chain of
+            # or / and over its members
+            its = literal_items(args[0], self.unname)
+            if its is not None and 0 < len(its) <= 8:
+                conds = [self.as_cond(x) for x in its]
+                return (tm.mk_or if name.endswith("any") else
+                        tm.mk_and)(*conds)
         if name == "functools.reduce" and len(args) in (2, 3) and not kwargs:
             # a fold over a completely known sequence: unrolled
             its = literal_items(args[1], self.unname)
